@@ -94,6 +94,11 @@ impl Adam {
         // if gradient is negative (accept_stat < target), we should increase step size
         self.log_step +=
             self.settings.learning_rate * m_hat / (v_hat.sqrt() + self.settings.epsilon);
+        // Long runs of one-sided acceptance statistics must not push the step size to
+        // zero or infinity: keep exp(log_step) a positive finite number.
+        self.log_step = self
+            .log_step
+            .clamp(f64::MIN_POSITIVE.ln(), f64::MAX.ln());
     }
 
     /// Get the current step size (not adapted)
